@@ -17,6 +17,26 @@ def opt(flag, default=None):
     return args[args.index(flag) + 1] if flag in args else default
 
 
+def tool_rc(tool):
+    """return code imposed on the one-shot tools by the harness (fake_rc.json in the cwd = exe_dir): 0 = behave normally,
+    n > 0 = exit n, n < 0 = die from signal -n — in both cases after the normal output has been written"""
+    import json
+    if not os.path.isfile("fake_rc.json"):
+        return 0
+    with open("fake_rc.json") as fh:
+        return int(json.load(fh).get(tool, 0))
+
+
+def leave(tool, normal):
+    rc = tool_rc(tool)
+    if rc < 0:
+        import signal
+        if -rc != signal.SIGKILL:
+            signal.signal(-rc, signal.SIG_DFL)
+        os.kill(os.getpid(), -rc)
+    sys.exit(rc if rc else normal)
+
+
 if sub == "grompp":
     for flag in ("-f", "-c", "-p"):
         if not os.path.isfile(opt(flag, "")):
@@ -26,7 +46,7 @@ if sub == "grompp":
         fh.write("fake tpr\nconf=" + os.path.abspath(opt("-c")) + "\n" + src.read())
     with open(opt("-f")) as src, open("mdout.mdp", "w") as fh:
         fh.write(src.read())
-    sys.exit(0)
+    leave("grompp", 0)
 if sub == "energy":
     terms = sys.stdin.read().split()
     n = 1
@@ -37,7 +57,7 @@ if sub == "energy":
         fh.write('@ s0 legend "Potential"\n@ s1 legend "Kinetic En."\n')
         for k in range(max(n, 1)):
             fh.write(f"{k * 0.5:12.6f}  0.000000  0.000000\n")
-    sys.exit(0 if terms else 1)
+    leave("energy", 0 if terms else 1)
 if sub == "launch":
     # launcher-style worker command (srun / mpiexec / wrapper script): the real program is a CHILD of the process
     # the engine started, in the same session / process group (the engine's preexec_fn=os.setsid made us its leader)
